@@ -48,6 +48,19 @@ PROPS = {
         "trusted_base": SRV_TB + ["tools/gen_tables.py: per-function census of mark_modified call sites in engine.rs"],
         "assumptions": ["list/set/hash/zset/stream writers are added to the catalogue as their families are merged"],
     },
+    "C02": {
+        "n": {"quick": 40, "thorough": 600}, "diff_is_failure": True, "judge": True, "trivial_outs": {"i1", ""}, "run_timeout": 2400,
+        "rule": "sweeper paused through the VERIF hook; (a) random histories of TTL setters (PX 200/400, EX 1, SETEX, PSETEX, EXPIRE, PEXPIRE incl. <= 0), overwrites, PERSIST, RENAME, in-place modifications and reads on 4 keys (two sharing an engine shard), SLEEP 300 steps of the logical clock and full sweeper passes started at known instants, ending with a dump (VERIF INDEX 0 = key/stored deadline/indexed deadline/present, EXISTS/PTTL/GET); (b) for each of 13 racing commands x {TTL still set, TTL already cleared}: SET t PX 200, sleep, sweeper stopped between its scan and its deletions, the racing command, release, dump, another pass, dump; one evaluation = one reply or dump compared with the model; distinct = distinct (command, reply) pairs",
+        "explanation": "theorems: never-early over all interleavings of the two sweeper phases with client commands, sweeper only removes, sweep completeness, lazy expiry of GET/EXISTS, TTL bookkeeping, TTL/PTTL replies; tie: stepped/gated real sweeper on a logical clock",
+        "trusted_base": SRV_TB + ["the VERIF hook (cfg ferrous_verif): sweeper PAUSE/STEP/GATE/RELEASE/WAITING/PASSES and INDEX dump"],
+        "assumptions": ["list/set/hash/zset/stream keys are covered as their families are merged", "the clock itself and the sweeper's 1 s period are not modelled (theorems hold for any period)"],
+    },
+    "C05": {
+        "n": {"quick": 60, "thorough": 1200}, "diff_is_failure": True, "trivial_outs": {"i1", ""}, "run_timeout": 2400,
+        "rule": "raw byte streams on one connection: 1-12 (sometimes 150-250) requests per write drawn from the string/key catalogue plus hostile shapes (CR LF inside command names and arguments, fake replies inside names, empty/null arrays, non-array frames, inline PING, nested arrays, 600-byte noise arguments), optionally followed by QUIT or by one of 8 protocol violations, sent whole / byte-at-a-time / cut inside CR LF / 2-6 random cuts; the harness collects everything the server sends until quiet, decodes it with its own RESP reader and compares the canonical frame sequence and the close flag with the model; then PING on the same and on another connection",
+        "explanation": "theorems: one reply per frame, reads compose, segmentation independence, reply = one frame, client decodes exactly the replies; tie: raw-stream differential runs",
+        "trusted_base": SRV_TB, "assumptions": ["requests contain no RESP3 double frames (f64 text oracle not used at connection level)", "a read never exceeds 8192 bytes in the implementation; pipelines with QUIT or a protocol violation are kept below that"],
+    },
     "C20": {
         "n": {"quick": 400, "thorough": 6000},
         "judge": True,
